@@ -18,8 +18,8 @@ def gen_stall(r, tier):
 class C02(Prop):
     id = "C02"
     lean_modules = ["Fan2go.Props.C02"]
-    fact_modules = ["Fan2go.Props.Facts"]
-    rule = ("ctrl-stall: neverStop fans (hwmon with configured or measured minimum, file) x all loops x event lists with "
+    fact_modules = ["Fan2go.Props.Facts", "Fan2go.Props.Trans"]
+    rule = ("ctrl-stall: neverStop fans (hwmon with configured or measured minimum, file, cmd) x all loops x event lists with "
             "stall episodes (RPM 0 while the request is unchanged) forced in most lists; ctrl: the general controller stream. "
             "non-trivial = distinct (kind, configured-min?, loop, number of raises observed (capped), stalled-at-max seen?)")
     assumptions = ["limits inside the quantifier (0 <= min <= max <= 255); the floor is GetMinPwm() + raises so far"]
